@@ -69,6 +69,7 @@ func (t *Transaction) rollback() {
 	verifhook.Yield("timer.fired", t.transactionId)
 	ctx := context.Background()
 	t.transactionManager.RollbackExpired(ctx, t)
+	verifhook.Yield("timer.done", t.transactionId)
 }
 
 func (t *Transaction) StartRollbackTimer() error {
